@@ -21,6 +21,7 @@
 APP_CR_HOLDERS = [("2017-2019", "Vadim Yanitskiy <axilirator@gmail.com>")]
 
 import logging as log
+import threading
 import signal
 import argparse
 import random
@@ -137,9 +138,11 @@ class FakeTRX(Transceiver):
 		self.rssi_rand_threshold = 0
 		self.ci_rand_threshold = 0
 
-		# Path loss simulation (burst dropping)
+		# Path loss simulation (burst dropping).  The counter is consumed by
+		# the clock thread and (re)configured by the control interface thread.
 		self.burst_drop_amount = 0
 		self.burst_drop_period = 1
+		self._burst_drop_lock = threading.Lock()
 
 	@property
 	def toa256(self):
@@ -181,15 +184,16 @@ class FakeTRX(Transceiver):
 	# Path loss simulation: burst dropping
 	# Returns: True - drop, False - keep
 	def sim_burst_drop(self, msg):
-		# Check if dropping is required
-		if self.burst_drop_amount == 0:
-			return False
+		with self._burst_drop_lock:
+			# Check if dropping is required
+			if self.burst_drop_amount == 0:
+				return False
 
-		if msg.fn % self.burst_drop_period == 0:
-			log.info("(%s) Simulation: dropping burst (fn=%u %% %u == 0)"
-				% (self, msg.fn, self.burst_drop_period))
-			self.burst_drop_amount -= 1
-			return True
+			if msg.fn % self.burst_drop_period == 0:
+				log.info("(%s) Simulation: dropping burst (fn=%u %% %u == 0)"
+					% (self, msg.fn, self.burst_drop_period))
+				self.burst_drop_amount -= 1
+				return True
 
 		return False
 
@@ -357,8 +361,9 @@ class FakeTRX(Transceiver):
 					"be negative" % self)
 				return -1
 
-			self.burst_drop_amount = num
-			self.burst_drop_period = 1
+			with self._burst_drop_lock:
+				self.burst_drop_amount = num
+				self.burst_drop_period = 1
 			return 0
 
 		# Path loss simulation: burst dropping
@@ -381,8 +386,9 @@ class FakeTRX(Transceiver):
 					"be greater than zero" % self)
 				return -1
 
-			self.burst_drop_amount = num
-			self.burst_drop_period = period
+			with self._burst_drop_lock:
+				self.burst_drop_amount = num
+				self.burst_drop_period = period
 			return 0
 
 		# Artificial delay for the TRXC interface
